@@ -206,12 +206,14 @@ def rows_to_array(rows):
                     dtype=float).reshape(len(rows), -1)
 
 
-def ref_adaptive(D, kA, order):
+def ref_adaptive(D, kA, order, nb=None):
     """the adaptive-neighbourhood construction as documented ([Xu2008], processing order
     `order`): in round i every state, in the given order, is linked (symmetrically) to its
-    nearest neighbour beyond the i-th it is not yet linked to.  Rows of D without ties."""
+    nearest neighbour beyond the i-th it is not yet linked to.  Rows of D without ties, or
+    (round 5) the ranking `nb` of the neighbours given by the caller."""
     n = len(D)
-    nb = [sorted(range(n), key=lambda j: D[i][j]) for i in range(n)]
+    if nb is None:
+        nb = [sorted(range(n), key=lambda j: D[i][j]) for i in range(n)]
     R = [[0] * n for _ in range(n)]
     for i in range(kA):
         for l in order:
@@ -328,6 +330,11 @@ def check_rqa(ctx, obj, R, cls, sig_extra, replay):
     the line histograms account for the matrix the object holds (N consistent
     with the side of R)."""
     R = np.asarray(R)
+    if R.ndim != 2:
+        # (round 5) a construction that left no matrix behind: a failing input, not a crash
+        ctx.fail(dict(kind="matrix", cls=cls, issue="no-matrix", **sig_extra),
+                 f"{cls}: recurrence_matrix() is not a 2-D array ({R!r})", replay)
+        return
     side = R.shape[0]
     if side == 0:
         return
@@ -719,6 +726,12 @@ def run(ctx):
                      f"for {n} states (k <= n-1)", replay)
             continue
         R = np.asarray(obj.recurrence_matrix())
+        if R.ndim != 2:
+            ctx.case(("adaptive-obj", n, kA, ts.tobytes().hex(), metric), False)
+            ctx.fail(dict(kind="adaptive", cls=cls, issue="no-matrix"),
+                     f"{cls}(adaptive_neighborhood_size={kA}): recurrence_matrix() is not a 2-D "
+                     f"array ({R!r})", replay)
+            continue
         ctx.case(("adaptive-obj", n, kA, ts.tobytes().hex(), metric), nontrivial(R))
         neigh = (R.sum(axis=1) - np.diag(R))
         st = q_states(ts, None)
@@ -788,6 +801,165 @@ def run(ctx):
                 reqs.append((f"rnx 1 {metric} 0 - a:{kB} {ordtxt} {enc_vmat(ts)}" if net else
                              f"rpx {metric} 0 0 - a:{kB} {ordtxt} {enc_vmat(ts)}"))
                 impl.append(got)
+
+    # adaptive neighbourhood size with TIED distances and with MISSING VALUES (round 5):
+    # duplicate state vectors, lattice data, NaN states with and without missing_values=True,
+    # 17+ states.  NumPy's order among ties is unspecified (its argsort is not stable), so the
+    # model is handed the table NumPy produces for the matrix the method sorts (distances;
+    # with missing_values the rows / columns of states with missing values at +inf), first
+    # checks that it IS an argsort of the model's own matrix (`argsortOK`; theorems
+    # adaptive_plot_any_argsort / adaptive_plot_missing_values speak about every such table)
+    # and then runs the kernel on it: constructor, then the setter with a caller-chosen order.
+    def q_key(v):
+        return (1, 0) if v is None else (0, v)
+
+    for c in range(320 if quick else 1600):
+        big = rng.random() < (0.2 if quick else 0.3)
+        n = rng.randrange(17, 48 if quick else 100) if big else rng.randrange(2, 13)
+        emb = gen_emb(rng, 0.3)
+        d = 1 if emb is not None else rng.choice([1, 1, 2, 3])
+        n_st = n - ((emb[0] - 1) * emb[1] if emb else 0)
+        if n_st < 2:
+            continue
+        nv = rng.choice([1, 2, 2, 3, 4, 6])
+        ts = np.array([[float(rng.randrange(nv)) for _ in range(d)] for _ in range(n)])
+        if rng.random() < 0.3:
+            ts = ts[np.lexsort(ts.T[::-1])]       # runs of equal states
+        mv = rng.random() < 0.4
+        with_nan = rng.random() < (0.8 if mv else 0.15)
+        if with_nan:
+            for _ in range(rng.choice([1, 1, 2, 3])):
+                ts[rng.randrange(n), rng.randrange(d)] = np.nan
+        st = q_states(ts, emb)
+        miss = has_missing(st) if mv else [False] * n_st
+        comp = [i for i in range(n_st) if not miss[i]]
+        nC = len(comp)
+        metric = rng.choice(METRICS)
+        kA = min(n_st - 1, rng.choice([1, 1, 2, 3, rng.randrange(1, n_st)]))
+        if n_st > 24:
+            kA = min(kA, 4)      # (the model's matrix is a chain of closures: cost ~ (n k)^2 n)
+        net = rng.random() < 0.4 and nC >= 2
+        cls = "RecurrenceNetwork" if net else "RecurrencePlot"
+        kw = dict(metric=metric, adaptive_neighborhood_size=kA, missing_values=mv, silence_level=3)
+        if emb:
+            kw.update(dim=emb[0], tau=emb[1])
+        replay = dict(cls=cls, time_series=ts.tolist(), kwargs={k: v for k, v in kw.items()})
+        ctx.count(f"{cls}:adaptive-ties" + (":17+" if big else "") + (":nan" if with_nan else "")
+                  + (":missing_values" if mv else "") + (":emb" if emb else ""))
+        sig = dict(kind="adaptive", cls=cls, ties=True, missing_values=mv)
+        try:
+            with np.errstate(all="ignore"):
+                obj = (RecurrenceNetwork if net else RecurrencePlot)(caller_array(rng, ts), **kw)
+                Dm = np.array(obj.distance_matrix(metric), dtype=float)
+                if mv:
+                    Dm[miss, :] = np.inf
+                    Dm[:, miss] = np.inf
+                sn = Dm.argsort(axis=1)
+        except Exception as ex:  # noqa
+            ctx.case(("adaptive-ties", cls, metric, emb, kA, mv, ts.tobytes().hex()), False)
+            ctx.fail(dict(sig, error=type(ex).__name__),
+                     f"{cls}(adaptive_neighborhood_size={kA}, missing_values={mv}) raised "
+                     f"{type(ex).__name__}: {ex} for {n_st} states with tied distances", replay)
+            continue
+        R = np.asarray(obj.recurrence_matrix())
+        if R.ndim != 2:
+            ctx.case(("adaptive-ties", cls, metric, emb, kA, mv, ts.tobytes().hex()), False)
+            ctx.fail(dict(sig, issue="no-matrix"),
+                     f"{cls}(adaptive_neighborhood_size={kA}, missing_values={mv}): "
+                     f"recurrence_matrix() is not a 2-D array ({R!r})", replay)
+            continue
+        ctx.case(("adaptive-ties", cls, metric, emb, kA, mv, ts.tobytes().hex()), nontrivial(R))
+        D = q_dists(metric, st, st)
+        for i in range(n_st):
+            D[i][i] = Fr(0)                      # the kernels leave the np.zeros diagonal
+        tied = any(len(set(r)) < len(r) for r in D)
+        ctx.count("adaptive-ties: some row has tied distances" if tied else
+                  "adaptive-ties: no tie")
+        if (sn != Dm.argsort(axis=1, kind="stable")).any():
+            ctx.count("adaptive-ties: NumPy's table differs from the stable argsort")
+        if (sn[:, 0] != np.arange(n_st)).any():
+            ctx.count("adaptive-ties: some state does not sort first in its own row")
+        # oracle (independent of the model; tie-independent statements only)
+        problem = None
+        if R.shape != (n_st, n_st) or not np.array_equal(R, R.T) or \
+                int(obj.N) != (nC if net else n_st):
+            problem = "matrix not symmetric n x n / N"
+        elif any(miss[i] and (R[i, :].any() or R[:, i].any()) for i in range(n_st)):
+            i = next(i for i in range(n_st) if miss[i] and (R[i, :].any() or R[:, i].any()))
+            problem = f"missing: state {i} holds a missing value but is recurrent"
+        elif kA <= nC - 1:
+            # (without missing_values and with NaN the supremum kernel skips the component:
+            #  no Fraction distance there)
+            use_d = not (with_nan and not mv and metric == "supremum")
+            for i in comp:
+                srt = sorted((D[i][j] for j in comp), key=q_key)
+                want = srt[1:kA + 1]                         # distances of ranks 1..kA
+                have = sorted((D[i][j] for j in comp if R[i, j]), key=q_key)
+                it = iter(have)                              # multiset inclusion want <= have
+                if use_d and not all(any(h == w for h in it) for w in want):
+                    problem = (f"nearest: state {i} is not linked to states at its {kA} smallest "
+                               "distances (ranks 1..k of the sorted row)")
+                    break
+                others = sum(int(R[i, j]) for j in comp if j != i)
+                if not (with_nan and not mv) and others < kA:
+                    problem = (f"count: state {i} has {others} < {kA} neighbours other than itself"
+                               + (" among the states without missing values" if mv else ""))
+                    break
+        if problem is None:
+            exp = np.array(ref_adaptive(D, kA, list(range(n_st)), nb=sn.tolist()), dtype=int)
+            exp[miss, :] = 0
+            exp[:, miss] = 0
+            if R.tolist() != exp.tolist():
+                problem = "construction: not the documented construction on the sorted neighbours"
+        if problem:
+            ctx.fail(dict(sig, issue=problem.split(":")[0].split()[0]),
+                     f"{cls}(adaptive_neighborhood_size={kA}, missing_values={mv}), tied distances: "
+                     f"{problem}", dict(replay, R=enc_bmat(R)))
+        if net:
+            exp = R.copy()
+            np.fill_diagonal(exp, 0)
+            exp = exp[np.ix_(comp, comp)]
+            if not np.array_equal(np.asarray(obj.adjacency), exp):
+                ctx.fail(dict(kind="network", cls=cls, spec="adaptive", missing=mv, ties=True),
+                         f"{cls}: adjacency is not the recurrence matrix without its diagonal"
+                         + (" and without the states with missing values" if mv else ""), replay)
+        if not with_nan:
+            check_rqa(ctx, obj, R, cls, dict(spec="adaptive", missing=False), replay)
+        sntxt = ";".join(",".join(map(str, r)) for r in sn.tolist())
+        reqs.append(f"adaptsn {'0' if net else 'p'} {metric} {int(mv)} {enc_emb(emb)} {kA} - "
+                    f"{sntxt} {enc_vmat(ts)}")
+        impl.append(f"N={int(obj.N)} A={enc_bmat(obj.adjacency)}" if net else
+                    f"N={int(obj.N)} M={int(obj.N)} R={enc_bmat(R)}")
+        ctx.count("adaptive-ties object in correspondence")
+        if net and nC < n_st:
+            continue      # setters of a network with deleted states: known finding (shared N)
+        # the setter on the same object with a caller-chosen processing order
+        kB = rng.randrange(0, n_st + 2) if n_st <= 24 else rng.randrange(0, 5)
+        order = list(range(n_st))
+        rng.shuffle(order)
+        try:
+            obj.set_adaptive_neighborhood_size(kB, order=np.array(order, dtype=np.int64))
+            R2 = np.asarray(obj.recurrence_matrix())
+            got = (f"N={int(obj.N)} A={enc_bmat(obj.adjacency)}" if net else
+                   f"N={int(obj.N)} M={int(obj.N)} R={enc_bmat(R2)}")
+            exp = np.array(ref_adaptive(D, kB, order, nb=sn.tolist()), dtype=int).reshape(n_st, n_st)
+            exp[miss, :] = 0
+            exp[:, miss] = 0
+            if R2.tolist() != exp.tolist():
+                ctx.fail(dict(sig, issue="order"),
+                         f"{cls}.set_adaptive_neighborhood_size({kB}, order={order}) is not the "
+                         "documented construction for that processing order (tied distances, "
+                         f"missing_values={mv})",
+                         dict(replay, setter_arg=kB, order=order, R=enc_bmat(R2)))
+        except Exception as ex:  # noqa
+            got = exc_name(ex)
+            ctx.fail(dict(sig, error=type(ex).__name__, step="setter"),
+                     f"{cls}.set_adaptive_neighborhood_size({kB}, order=permutation) raised "
+                     f"{type(ex).__name__}: {ex}", dict(replay, setter_arg=kB, order=order))
+        if not (net and got.startswith("raise")):
+            reqs.append(f"adaptsn {'1' if net else 'p'} {metric} {int(mv)} {enc_emb(emb)} {kB} "
+                        f"{','.join(map(str, order))} {sntxt} {enc_vmat(ts)}")
+            impl.append(got)
 
     # ------------------------------------------------------------------
     # 4. CrossRecurrencePlot
